@@ -15,6 +15,7 @@ CLAIMED = {
  "C14": ("DESIGN.md §5 C14", "print / parse / print round trip of Child keys (all keys up to K bytes, 5 positions, dot and bracket form), symbolic integers in Nth/Slice/Union, and every typed equation tree up to 3 operators through both printers, with the solver searching operand values that distinguish original and re-parsed evaluation"),
  "C17": ("DESIGN.md §5 C17", "oj.Match / MatchLoad (chunked) callback sequence vs the outermost reference selections on the parsed document in document order, concrete document skeletons with symbolic leaves, targets with symbolic indexes"),
  "C18": ("DESIGN.md §5 C18", "Generify/Simplify, GenAlter/Alter, Dup, Decompose, gen Dup on tree shapes with symbolic leaves: exact tree equality, no shared containers (heap identity in the executor), mutate-after-copy in both directions; gen vs simple writer output"),
+ "C20": ("DESIGN.md §5 C20", "asm plans [set $.asm [fn args...]] over 19 functions x arity x argument kinds with symbolic values: no panic, determinism, $.src frame, documented results for the all-int / all-bool / string cells, String() -> sen.Parse -> NewPlan equivalence"),
  "C19": ("DESIGN.md §5 C19", "alt.Diff/Compare/Match on pairs of trees with symbolic leaves and ignore paths: empty iff equal (up to numeric width, null-vs-absent), soundness and completeness of the reported paths, Compare vs Diff, Match vs reference"),
  "C09": ("DESIGN.md §5 C09", "reported Line/Column vs the reference's first-offending-byte position on every rejecting path"),
 }
